@@ -187,7 +187,7 @@ pub fn run(args: &Args) -> Report {
             }
         }
         // removing the last child of a block whose /end stood on the child's line, behind a // comment
-        for (k, body) in ["  // note\n  READ_WRITE /end MEASUREMENT", "  // note\n  FORMAT \"http://x\" READ_WRITE /end MEASUREMENT", "  /* a // b */ READ_WRITE /end MEASUREMENT", "  FORMAT \"%2.1\" // note\n  READ_WRITE /end MEASUREMENT"].iter().enumerate() {
+        for (k, body) in ["  // note\n  READ_WRITE /end MEASUREMENT", "  // note\n  FORMAT \"http://x\" READ_WRITE /end MEASUREMENT", "  /* a // b */ READ_WRITE /end MEASUREMENT", "  FORMAT \"%2.1\" // note\n  READ_WRITE /end MEASUREMENT", "  /* a\n \" */ // c\n  READ_WRITE /end MEASUREMENT", "  /* a\n // b */ READ_WRITE /end MEASUREMENT"].iter().enumerate() {
             let text = format!("ASAP2_VERSION 1 71\n/begin PROJECT p \"\"\n/begin MODULE m \"\"\n/begin MEASUREMENT x \"\" UBYTE NO_COMPU_METHOD 0 0 0 1\n{body}\n/begin MEASUREMENT y \"\" UBYTE NO_COMPU_METHOD 0 0 0 1 /end MEASUREMENT\n/end MODULE\n/end PROJECT\n");
             if let Loaded::Ok(mut file, _) = load(&text, false) {
                 file.project.module[0].measurement[0].read_write = None;
